@@ -29,7 +29,7 @@ EXPECTED_THEOREMS = {
     "C02": ["head_roundtrip", "method_table", "delivered_is_parsed", "head_roundtrip_any_segmentation"],
     "C03": ["limited_read_exact", "buffered_read_exact", "buffered_is_next_n", "upgrade_read_exact", "empty_read", "chunked_read_exact", "te_precedence", "declared_length", "no_framing_no_body"],
     "C09": ["next_head_offset_limited", "next_head_offset_buffered", "next_head_offset_empty", "next_head_offset_chunked", "chunked_read_then_drain"],
-    "C10": ["request_line_needs_three_fields", "unknown_version_rejected", "version_table", "header_without_colon_rejected", "bad_request_line_outcome", "bad_header_outcome", "non_ascii_outcome", "non_ascii_line", "unsupported_expect_outcome", "expect_classification", "version_too_high_outcome", "too_high_versions", "earlier_responses_first"],
+    "C10": ["request_line_needs_three_fields", "unknown_version_rejected", "version_table", "header_without_colon_rejected", "bad_request_line_outcome", "bad_header_outcome", "non_ascii_outcome", "non_ascii_line", "unsupported_expect_outcome", "expect_classification", "version_too_high_outcome", "too_high_versions", "earlier_responses_first", "pipeline_then_bad_request_line", "pipeline_then_eof"],
     "C16": ["ws_in_name_rejected", "ws_before_colon_rejected", "leading_ws_rejected", "bad_content_length_rejected", "strict_content_length_iff", "non_digit_rejected", "rejected_line_fails_head", "bad_content_length_outcome"],
     "C12": ["last_request_decision", "nothing_after_last", "stays_open", "close_after_client_eof", "trace_extends_state"],
     "C18": ["continue_exactly_once", "continue_is_flushed", "expect_recognised", "no_expect_no_continue", "expect_body_not_preread"],
@@ -75,7 +75,8 @@ CTL_ASSUMPTIONS = [
 ]
 
 CONN_ASSUMPTIONS = [
-    "the application is sequential in the model (one request handled at a time, in delivery order); concurrency of handlers is covered by C01/C06/C11",
+    "Conn.run applies the handlers one request at a time, in delivery order; Lts.Par (C01.concurrent_handlers_same_bytes, tied by the mt / par trace acceptance) shows that "
+    "every concurrent schedule of the handlers submits the same bytes and sees the same requests",
     "pristine crate over loopback TCP/UNIX sockets; the client half-closes after sending (or stays open in mode=open) and reads to EOF",
 ]
 
@@ -196,24 +197,25 @@ PROPS = {
         "assumptions": CTL_ASSUMPTIONS,
     },
     "C08": {
-        "batches": lambda tier: ctl_batches("pool", 1500, 30000)(tier) + [{"bin": "pristine", "args": ["srv", "burst", 10 if tier != "thorough" else 100], "name": "pristine bursts of keep-alive connections"}],
+        "batches": lambda tier: ctl_batches("pool", 1500, 30000)(tier) + ctl_batches("srvp", 300, 6000, per=150)(tier)
+                   + [{"bin": "pristine", "args": ["srv", "burst", 10 if tier != "thorough" else 100], "name": "pristine bursts of keep-alive connections"}],
         "replay_bin": "controlled", "oracle_col": "C08", "agree_col": "aC08",
         "rule": "TaskPool of the generated copy under the deterministic scheduler: bursts of 1..40 tasks (gaps 0 / 10 us / 1 ms / 6 s, before or after the initial workers "
                 "went idle), tasks block on a gate that stays shut (keep-alive connections that never end) or end at once; random schedules; every run replayed on the Lean "
                 "LTS (dispatch branch, which worker starts which task); predicate: every dispatched task started although no task ended",
-        "required_tags": ["tasks:5", "tasks:gt16", "tasks:le4", "newthread:1", "queued:1", "presettle:0", "presettle:1", "srv:burst:5", "srv:burst:16", "srv:held"],
+        "required_tags": ["tasks:5", "tasks:gt16", "tasks:le4", "newthread:1", "queued:1", "presettle:0", "presettle:1", "srv:burst:5", "srv:burst:16", "srv:held", "srvpool:1"],
         "partial": ["theorem: every queued task is claimed by a woken worker (for all burst patterns and schedules); conservation and at-most-once start",
                     "whole-server isolation over real sockets (N simultaneous keep-alive connections) is sampled by the pristine burst batch"],
         "assumptions": CTL_ASSUMPTIONS,
     },
     "C20": {
-        "batches": lambda tier: ctl_batches("pool", 1500, 30000)(tier) + [
+        "batches": lambda tier: ctl_batches("pool", 1500, 30000)(tier) + ctl_batches("srvp", 300, 6000, per=150)(tier) + [
             {"bin": "pristine", "args": ["srv", "drop", 6 if tier != "thorough" else 60], "name": "pristine server drop (tcp/unix)"},
             {"bin": "pristine", "args": ["srv", "reclaim", 5], "name": "pristine thread reclamation, burst of 5"},
             {"bin": "pristine", "args": ["srv", "reclaim", 40], "name": "pristine thread reclamation, burst of 40"}],
         "replay_bin": "controlled", "oracle_col": "C20", "agree_col": "aC20",
         "rule": "same pool scenarios continued: gates opened, virtual time advanced past the idle period, live worker threads counted; then the pool is dropped and time advanced again",
-        "required_tags": ["timeoutwake:1", "burstlive:gt4", "burstlive:le4", "trickle:1", "srv:drop-tcp", "srv:drop-unix", "srv:drop-unix-dead", "srv:drop-queued", "srv:reclaim:40"],
+        "required_tags": ["timeoutwake:1", "burstlive:gt4", "burstlive:le4", "trickle:1", "srv:drop-tcp", "srv:drop-unix", "srv:drop-unix-dead", "srv:drop-queued", "srv:reclaim:40", "srvpool:1"],
         "partial": ["theorem: at most MIN_THREADS untimed waiters / idle pool at baseline / retirement strands no task / accept loop stops after at most one more accept / handed-out requests stay answerable",
                     "observed only: connect() refused after drop, UNIX socket path removed, real thread counts (/proc/self/task)"],
         "assumptions": CTL_ASSUMPTIONS,
